@@ -480,10 +480,6 @@ func runScript(t *testing.T, sc script) (out outcome) {
 				}
 			}
 		}
-		mu.Lock()
-		live0 := live
-		mu.Unlock()
-		_ = live0
 		start = time.Now()
 
 		launch := func(s *stepState) {
@@ -508,7 +504,7 @@ func runScript(t *testing.T, sc script) (out outcome) {
 					i := objIndex(sw)
 					for o, n := range beganOpen {
 						if n > 0 && o != sw {
-							violate("overlap:vigil-on-an-object-that-was-open-when-it-began-while-summon-hands-out-another-object",
+							violate("overlap:summon-returns-other-object-during-vigil",
 								fmt.Sprintf("SummonSwamp returned object #%d while a request still holds a vigil (begun while that object was open) on object #%d (closed now: %v)", i, objIndex(o), isClosed(o)))
 						}
 					}
@@ -523,6 +519,10 @@ func runScript(t *testing.T, sc script) (out outcome) {
 						sw.CeaseVigil()
 					}
 				case "req":
+					// the request begins here: a destroy that returns after this point overlaps it
+					mu.Lock()
+					reqCallSeq := tick()
+					mu.Unlock()
 					sw := summon(ctx)
 					if sw == nil {
 						return
@@ -544,9 +544,8 @@ func runScript(t *testing.T, sc script) (out outcome) {
 					mu.Unlock()
 					var w *wrec
 					if s.st.Write {
-						w = &wrec{key: fmt.Sprintf("r%d", s.idx), obj: sw}
+						w = &wrec{key: fmt.Sprintf("r%d", s.idx), obj: sw, callSeq: reqCallSeq}
 						mu.Lock()
-						w.callSeq = tick()
 						writes = append(writes, w)
 						mu.Unlock()
 						tr := sw.CreateTreasure(w.key)
@@ -899,6 +898,3 @@ func TestCheck(t *testing.T) {
 	c.MinNontrivial = c.N(150, 3000)
 	c.MaxInconclusiveFrac = 0.1
 }
-
-var _ = rand.IntN
-var _ atomic.Bool
